@@ -308,7 +308,9 @@ def func_adl_parameterized_call(
     return decorator
 
 
-def _fill_in_default_arguments(func: Callable, call: ast.Call) -> Tuple[ast.Call, Type]:
+def _fill_in_default_arguments(
+    func: Callable, call: ast.Call, has_receiver: bool = False
+) -> Tuple[ast.Call, Type]:
     """Given a call and the function definition:
 
     * Defaults are filled in
@@ -322,6 +324,8 @@ def _fill_in_default_arguments(func: Callable, call: ast.Call) -> Tuple[ast.Call
     Args:
         func (Callable): The function definition
         call (ast.Call): The ast call site to be modified
+        has_receiver (bool): `func` is a method as found on its class: its first parameter
+            (whatever it is called) is the object the method is called on.
 
     Raises:
         ValueError: Missing arguments, etc.
@@ -340,23 +344,25 @@ def _fill_in_default_arguments(func: Callable, call: ast.Call) -> Tuple[ast.Call
     i_arg = 0
     arg_array = list(call.args)
     keywords = list(call.keywords)
-    for param in sig.parameters.values():
-        if param.name != "self":
-            if len(arg_array) <= i_arg:
-                # See if they specified it as a keyword
-                a, keywords = _find_keyword(keywords, param.name)
-                if a is not None:
-                    arg_array.append(a)  # type: ignore
-                elif param.default is not param.empty:
-                    if param.name == "known_types" and func.__module__ == ObjectStream.__module__:
-                        # Select/SelectMany/Where's last argument is for the library's own
-                        # use - it is never part of the query.
-                        break
-                    a = as_literal(param.default)
-                    arg_array.append(a)
-                else:
-                    raise ValueError(f"Argument {param.name} is required")
-            i_arg += 1
+    params = list(sig.parameters.values())
+    if has_receiver and len(params) > 0 and not inspect.ismethod(func):
+        params = params[1:]
+    for param in params:
+        if len(arg_array) <= i_arg:
+            # See if they specified it as a keyword
+            a, keywords = _find_keyword(keywords, param.name)
+            if a is not None:
+                arg_array.append(a)  # type: ignore
+            elif param.default is not param.empty:
+                if param.name == "known_types" and func.__module__ == ObjectStream.__module__:
+                    # Select/SelectMany/Where's last argument is for the library's own
+                    # use - it is never part of the query.
+                    break
+                a = as_literal(param.default)
+                arg_array.append(a)
+            else:
+                raise ValueError(f"Argument {param.name} is required")
+        i_arg += 1
 
     # If we are making a change to the call, put in a reference back to the
     # original call.
@@ -661,7 +667,7 @@ def remap_by_types(
             for base_obj in base_obj_list:
                 # Do basic static analysis without doing any call backs.
                 default_args_node, return_annotation_raw = _fill_in_default_arguments(
-                    base_obj.method, r_node
+                    base_obj.method, r_node, has_receiver=True
                 )
                 return_annotation = resolve_type_vars(
                     return_annotation_raw, base_obj.obj_type, at_class=base_obj.method_class
